@@ -4,6 +4,8 @@ from harness import o_rad
 
 M = 'EPV.Props.C19.Riemann2D'
 T = 'EPV.C19.'
+MF = 'EPV.Props.C19.FindingPrandtlMeyer'
+TF = 'EPV.C19.Finding.'
 PAT = ['scs', 'scr', 'rcs', 'rcr']
 SOLVER_MODELS = ['R2d' + p.upper() for p in PAT] + ['R2Star' + p.upper() for p in PAT]
 PROP = dict(
@@ -13,13 +15,14 @@ PROP = dict(
             models=['R2Comp'], tie=o_rad.r2_func_tie('R2Comp'), oracle=o_rad.r2_shock),
         obl('C19.riemann2d.fan_isentrope', M, [T + 'exp_isentropic', T + 'exp_isentropic_text'],
             models=['R2Exp'], tie=o_rad.r2_func_tie('R2Exp'), oracle=o_rad.r2_isentrope),
-        obl('C19.riemann2d.fan_turning_coded', M, [T + 'exp_turning_coded', T + 'pm_coded', T + 'exp_turning_partial'],
+        obl('C19.riemann2d.fan_turning_coded', M, [T + 'exp_turning_coded'],
             models=['R2Exp', 'R2PM'], tie=o_rad.r2_func_tie('R2PM')),
-        # FINDING: the property is false on the current code; the theorems are its negation at concrete witnesses,
-        # the oracles reproduce it on the real code
-        obl('C19.riemann2d.prandtl_meyer', M, [T + 'Finding_prandtl_meyer'], models=['R2PM'], oracle=o_rad.r2_pm, finding=True),
-        obl('C19.riemann2d.fan_turning', M, [T + 'Finding_fan_turning', T + 'fanWitness_M2'], models=['R2Exp'],
-            oracle=o_rad.r2_turning, finding=True),
+        # FINDING: the property is false on the current code; the theorems (own module) are its negation at concrete
+        # witnesses plus the exact size of the defect, the oracles reproduce it on the real code
+        obl('C19.riemann2d.prandtl_meyer', MF, [TF + 'pm_coded', TF + 'Finding_prandtl_meyer'], models=['R2PM'],
+            oracle=o_rad.r2_pm, finding=True),
+        obl('C19.riemann2d.fan_turning', MF, [TF + 'exp_turning_partial', TF + 'fanWitness_M2', TF + 'Finding_fan_turning'],
+            models=['R2Exp', 'R2PM'], oracle=o_rad.r2_turning, finding=True),
         obl('C19.riemann2d.slipline', M, ['%sstar_%s_slipline' % (T, p) for p in PAT] + ['%sstar_%s_states' % (T, p) for p in PAT],
             models=['R2Star' + p.upper() for p in PAT], tie=o_rad.r2_solver_tie, oracle=o_rad.r2_slipline),
         obl('C19.riemann2d.states', M, ['%sr2d_%s_states' % (T, p) for p in PAT], models=['R2d' + p.upper() for p in PAT]),
